@@ -100,4 +100,20 @@ CLAIMS = {
         "category": "proof",
         "note": "Trusted: as C01/C04. Genuine defects found and repaired by fix: commits 55ca609 and 34e4241 (see known_findings.json); their failing histories are kept in corpus/. No-panic under faults is observed on the code (catch_unwind per case), proved for the model only where the model has explicit panic outcomes (C17).",
     },
+    "C12": {
+        "text": "Kernel-checked for every user model: statistics exist only for N > M+P with dof = N-M-P (c12_ok_dof), N <= M+P always yields an error (c12_underdetermined), weighted residuals = Yw - (W Phi) c, the cached residual expression (c12_residuals), "
+                "chi2 = |r|^2/dof (c12_chi2), standard error^2 = chi2 >= 0 (c12_stderr); on the usize shape model the degrees-of-freedom computation never panics in either build profile (Shape.c12_no_panic) while the pre-fix order provably panicked (Shape.c12_prefix_panics, decide); "
+                "fit_with_statistics = Err(fit result) iff fit failed / no coefficients / statistics erred (C04.c04_fws). Tie: statistics stream in both build profiles.",
+        "note": "Trusted: as C01; from_usize is a parameter (ofNat). Defect repaired by fix: commit 7f5ce42.",
+    },
+    "C13": {
+        "text": "Kernel-checked under InvSpec: covariance = chi2 * (H^T H)^-1 with H = W [Phi | D_k c] (c13_cov), index j<M is coefficient j and M+k is parameter k (c13_order), covariance symmetric (c13_symm, inv_symm), every variance >= 0 because the inverse is a Gram matrix (c13_diag_nonneg), "
+                "variance accessors are exactly the diagonal segments (c13_var_slices), correlation = cov_ij/sqrt(c_ii c_jj) with unit diagonal for positive variances (c13_corr). Tie: every FitStatistics accessor compared / monitored on the statistics stream.",
+        "note": "Trusted: as C01 plus InvSpec of nalgebra's LU inverse (assumed; monitored by cov*H^T H/sigma^2 = 1). |corr_ij| <= 1 (Cauchy-Schwarz on the Gram form) is monitored, its theorem is planned.",
+    },
+    "C14": {
+        "text": "Kernel-checked under TSpec: radius_i = t((1+p)/2; N-M-P) * sqrt(j_i^T Cov j_i) with j_i from the UNWEIGHTED model-function Jacobian, one entry per sample (c14_formula), a probability outside (0,1) is rejected, inside accepted (c14_domain), "
+                "radius non-negative and non-decreasing in p (c14_nonneg_mono, c14_sigma_nonneg). Tie: band radii for eight valid and six invalid probabilities per fit against the driver's exact Student-t quantile.",
+        "note": "Trusted: as C01 plus TSpec of distrs::StudentsT::ppf (Hill's approximation; assumed monotone, monitored on a probability grid).",
+    },
 }
